@@ -184,6 +184,35 @@ func genHandler() {
 			}
 		}
 		l.pf("/-- broadcastNextPartial: order of the statements that decide and use `round` -/\ndef bnpOrder : List String := %s\n", leanStrList(order))
+		// Every other top-level `if` before the digest must be the "head ahead of the tick" guard of the corrected
+		// variant: `if upon.Round > current.round { …log…; return }`. Anything else that can leave the function
+		// (or change what is signed) before the digest is an unrecognised shape.
+		skip := false
+		for _, st := range fd.Body.List {
+			if strings.Contains(stmtStringDeep(st), "h.crypto.DigestBeacon(") {
+				break
+			}
+			is, ok := st.(*ast.IfStmt)
+			if !ok || is == theIf {
+				continue
+			}
+			c := exprString(is.Cond)
+			last := ""
+			if n := len(is.Body.List); n > 0 {
+				last = stmtStringDeep(is.Body.List[n-1])
+			}
+			if (c == "upon.Round>current.round" || c == "current.round<upon.Round") && is.Init == nil && is.Else == nil && last == "return " {
+				for _, b := range is.Body.List[:len(is.Body.List)-1] {
+					if !strings.HasPrefix(stmtStringDeep(b), "h.l.") && !strings.HasPrefix(stmtStringDeep(b), "span.") {
+						die("broadcastNextPartial: the head-ahead guard does more than log and return: %s", stmtStringDeep(b))
+					}
+				}
+				skip = true
+				continue
+			}
+			die("broadcastNextPartial: unrecognised `if %s` before the digest", c)
+		}
+		l.pf("/-- broadcastNextPartial: is there a guard `if upon.Round > current.round { return }` before anything is signed (the corrected variant)? -/\ndef bnpSkipAhead : Bool := %v\n", skip)
 	}
 
 	// ---- run ----
